@@ -45,9 +45,9 @@ INT_THOROUGH = [
 for (w, b, k) in INT_QUICK + INT_THOROUGH:
     tier = 'quick' if (w, b, k) in INT_QUICK else 'thorough'
     sh = {'width': w, 'buf_items': b, 'pushes': k}
-    inst(P, 'c12_int_close_w%d_b%d_k%d' % (w, b, k), 'c12::int_push(%d, %d, %d, c12::CLOSE)' % (w, b, k), tier=tier, shape=sh,
+    inst(P, 'c12_int_close_w%d_b%d_k%d' % (w, b, k), 'c12::int_close(%d, %d, %d)' % (w, b, k), tier=tier, shape=sh,
          desc='IntVectorWriter: %d symbolic pushes, close, close again, drop: file == serialize(IntVector); %s' % (k, flushes(w, b, k)), **GHOST)
-    inst(P, 'c12_int_drop_w%d_b%d_k%d' % (w, b, k), 'c12::int_push(%d, %d, %d, c12::DROP)' % (w, b, k),
+    inst(P, 'c12_int_drop_w%d_b%d_k%d' % (w, b, k), 'c12::int_drop(%d, %d, %d)' % (w, b, k),
          tier='quick' if (w, b, k) in ((13, 3, 4), (63, 1, 4), (32, 2, 4)) else 'thorough', shape=sh,
          desc='IntVectorWriter dropped without close(): same complete file; %s' % flushes(w, b, k), **GHOST)
 # every width with a one-item and a zero-item buffer (thorough): 6 pushes
@@ -55,7 +55,7 @@ for w in range(1, 65):
     for b in (0, 1, 3):
         if (w, b, 6) in INT_THOROUGH:
             continue
-        inst(P, 'c12_int_close_w%d_b%d_k6' % (w, b), 'c12::int_push(%d, %d, 6, c12::CLOSE)' % (w, b), tier='thorough',
+        inst(P, 'c12_int_close_w%d_b%d_k6' % (w, b), 'c12::int_close(%d, %d, 6)' % (w, b), tier='thorough',
              shape={'width': w, 'buf_items': b, 'pushes': 6},
              desc='IntVectorWriter width grid; %s' % flushes(w, b, 6), **GHOST)
 
@@ -96,9 +96,10 @@ for n, (bb, ops, why) in enumerate(RAW_QUICK + RAW_THOROUGH):
     quick = n < len(RAW_QUICK)
     lit = '&[%s]' % ', '.join('c12::BIT' if o == B else str(o) for o in ops)
     tag = '_'.join('b' if o == B else str(o) for o in ops) or 'none'
-    for h, how, hn in ((0, 'c12::CLOSE', 'close'), (2, 'c12::CLOSE_HEADER', 'hdr2'), (1, 'c12::CLOSE_HEADER', 'hdr1'), (0, 'c12::DROP', 'drop')):
+    for h, hn in ((0, 'close'), (2, 'hdr2'), (1, 'hdr1'), (0, 'drop')):
         q = quick and (hn in ('close', 'hdr2') or (hn == 'drop' and n in (0, 1)))
-        inst(P, 'c12_raw_%s_buf%d_%s' % (hn, bb, tag), 'c12::raw_mix(%d, %s, %d, %s)' % (bb, lit, h, how), tier='quick' if q else 'thorough',
+        call = 'c12::raw_drop(%d, %s)' % (bb, lit) if hn == 'drop' else 'c12::raw_close(%d, %s, %d, %s)' % (bb, lit, h, 'true' if hn.startswith('hdr') else 'false')
+        inst(P, 'c12_raw_%s_buf%d_%s' % (hn, bb, tag), call, tier='quick' if q else 'thorough',
              shape={'buf_bits': bb, 'ops': ['bit' if o == B else o for o in ops], 'user_header_words': h, 'end': hn},
              desc='RawVectorWriter %s, user header %d words: %s' % (hn, h, why), **GHOST)
 
@@ -107,9 +108,8 @@ extra(P, assumptions=[
     'close(2) (reached from OwnedFd::drop) is the linked C model models/close_model.c: always succeeds, calls are counted (asserted: exactly one close per writer)',
     'the file is what those three calls leave: page cache, fsync, directory entries and the real file system are not modelled (native replay runs the same template on a real temporary file)',
     'all shapes (width, buffer length, number and width of every push, user-header length) are concrete per instance; pushed values, bits and header words are symbolic over their full range (values are NOT pre-masked to the width)',
-    'vacuity witness: the templates are straight-line for a concrete shape (no assumption, no data-dependent branch around an assertion), so the satisfied cover "harness end reachable" of every instance shows that each of its assertions was executed; Kani\'s per-assertion reachability instrumentation is switched off (it multiplies the solver output by 30 here)',
     'user-header protocol of RawVectorWriter as IntVectorWriter uses it: placeholder of the same length at creation, final header at close_with_header',
-], options={'no_reach': True}, coverage={'outside_bounds': [
+], coverage={'outside_bounds': [
     'RawVectorWriter::new / IntVectorWriter::new: the default 8 MiB buffer (only with_buf_len with buffers <= 192 bits is executed; the flush logic is the same code)',
     'more than 6 pushes per history (8 for extend); files larger than 96 bytes; buffers beyond 192 bits',
     'raw push mixes other than the listed patterns (widths 0, 1, 31, 33, 63, 64 and single bits)',
